@@ -130,6 +130,10 @@ func (p *Printer) printAssertion(a *model.Assertion) (int, error) {
 				return p.count - start, err
 			}
 		}
+		// a multi-line assertion is terminated by an empty line
+		if _, err := io.WriteString(p, "\n"); err != nil {
+			return p.count - start, err
+		}
 	}
 	return p.count - start, nil
 }
